@@ -136,3 +136,56 @@ impl Driver for DispatcherSwap {
         (c, obs)
     }
 }
+
+/// registry: one message from one sender on the real `execute` (C10: registry changes are for the owner; the hub may add)
+pub struct RegistryAuth;
+impl Driver for RegistryAuth {
+    fn gen(&self, rng: &mut Rng, _i: u64) -> Value {
+        let senders = ["owner", "hub", "nominee", "alice", "validator0"];
+        let msgs = ["add", "remove", "update_config", "set_owner", "accept"];
+        json!({"sender": senders[(rng.next() % 5) as usize], "msg": msgs[(rng.next() % 5) as usize], "n": 2 + rng.next() % 3})
+    }
+    fn run(&self, input: &Value) -> Outcome {
+        use basset_sei_validators_registry::contract::execute;
+        use basset_sei_validators_registry::msg::ExecuteMsg;
+        use basset_sei_validators_registry::registry::{CONFIG, REGISTRY};
+        let n = input["n"].as_u64().unwrap_or(2) as usize;
+        let names: Vec<String> = (0..n).map(|i| format!("validator{}", i)).collect();
+        let mut q: MockQuerier<Empty> = MockQuerier::new(&[(MOCK_CONTRACT_ADDR, &[])]);
+        let mut vals: Vec<SdkValidator> = names.iter().map(|n| SdkValidator { address: n.clone(), commission: Decimal::zero(), max_commission: Decimal::one(), max_change_rate: Decimal::one() }).collect();
+        vals.push(SdkValidator { address: "newval".into(), commission: Decimal::zero(), max_commission: Decimal::one(), max_change_rate: Decimal::one() });
+        q.update_staking("usei", &vals, &[]);
+        let mut deps = OwnedDeps { storage: MockStorage::default(), api: MockApi::default(), querier: q, custom_query_type: PhantomData::<Empty> };
+        reg_instantiate(deps.as_mut(), mock_env(), mock_info("owner", &[]), RegInit { registry: names.iter().map(|n| Validator { address: n.clone() }).collect(), hub_contract: "hub".into() }).unwrap();
+        // a pending nominee, as after SetOwner{nominee}
+        let _ = execute(deps.as_mut(), mock_env(), mock_info("owner", &[]), ExecuteMsg::SetOwner { new_owner_addr: "nominee".into() });
+        let sender = input["sender"].as_str().unwrap();
+        let kind = input["msg"].as_str().unwrap();
+        let msg = match kind {
+            "add" => ExecuteMsg::AddValidator { validator: Validator { address: "newval".into() } },
+            "remove" => ExecuteMsg::RemoveValidator { address: names[0].clone() },
+            "update_config" => ExecuteMsg::UpdateConfig { hub_contract: Some("evilhub".into()) },
+            "set_owner" => ExecuteMsg::SetOwner { new_owner_addr: "evil".into() },
+            _ => ExecuteMsg::AcceptOwnership {},
+        };
+        let before_cfg = CONFIG.load(&deps.storage).unwrap();
+        let res = execute(deps.as_mut(), mock_env(), mock_info(sender, &[]), msg);
+        let allowed: Vec<&str> = match kind { "add" => vec!["owner", "hub"], "accept" => vec!["nominee"], _ => vec!["owner"] };
+        let mut c = BTreeMap::new();
+        if !allowed.contains(&sender) { c.insert(format!("ra#C10.{}_rejected_for_other_senders", kind), res.is_err()); }
+        else {
+            c.insert(format!("ra#C10.{}_accepted_for_its_principal", kind), res.is_ok());
+            if res.is_ok() {
+                let cfg = CONFIG.load(&deps.storage).unwrap();
+                match kind {
+                    "add" => { c.insert("ra#add_registers_the_validator".to_string(), REGISTRY.has(&deps.storage, "newval".as_bytes())); }
+                    "remove" => { c.insert("ra#remove_unregisters_the_validator".to_string(), !REGISTRY.has(&deps.storage, names[0].as_bytes())); }
+                    "accept" => { c.insert("ra#C10.nominee_becomes_owner".to_string(), cfg.owner == cosmwasm_std::Api::addr_canonicalize(&deps.api, "nominee").unwrap()); }
+                    "update_config" => { c.insert("ra#update_config_sets_hub".to_string(), cfg.hub_contract == cosmwasm_std::Api::addr_canonicalize(&deps.api, "evilhub").unwrap() && cfg.owner == before_cfg.owner); }
+                    _ => {}
+                }
+            }
+        }
+        (c, json!({"accepted": res.is_ok(), "err": res.err().map(|e| e.to_string())}))
+    }
+}
